@@ -11,6 +11,20 @@ Proof.
   destruct (IH H) as [r [rest T]]. rewrite T. eauto.
 Qed.
 
+Lemma take_ifl a l r rest :
+  take_infl a l = Some (r, rest) -> NoDup (map fst l) ->
+  forall b, In b (map fst rest) <-> (In b (map fst l) /\ b <> a).
+Proof.
+  intros T N b. destruct (take_infl_perm a _ _ _ T) as [T1 [_ [_ [_ [_ [T6 _]]]]]].
+  destruct (T6 N) as [N1 N2]. specialize (T1 b). rewrite !cnt_in.
+  destruct (Nat.eqb_spec a b) as [E|E].
+  - subst. split; [intros H; exfalso; apply N2; apply cnt_in; auto|intros [_ H]; congruence].
+  - split; [intros H; split; [lia|congruence]|intros [H _]; lia].
+Qed.
+
+Definition completes (e : event) (b : nat) : Prop :=
+  match e with EDone a _ => a = b | _ => False end.
+
 Section Inv4.
 Variable addrs : list addr.
 Hypothesis Hn : addrs <> [].
@@ -30,17 +44,41 @@ Definition StepOK (s : st) (e : event) (s' : st) : Prop :=
   (fut s' = FTimeout -> fut s = FTimeout \/ (e = EConnectTimer /\ ct_armed s = true)) /\
   (exists nl, started s' = started s ++ nl /\
       (forall b, In b nl -> sync_of addrs b = Some true -> fut s' = FOk b) /\
-      (forall b, In b nl -> In b (ifl s') \/ sync_of addrs b <> None)).
+      (forall b, In b nl -> In b (ifl s') \/ sync_of addrs b <> None)) /\
+  (forall b, In b (ifl s) -> ~ completes e b -> In b (ifl s')) /\
+  (forall b, In b (ifl s') ->
+     (In b (ifl s) /\ ~ completes e b) \/ (sync_of addrs b = None /\ ~ In b (started s))).
 
+(* s1 is s with the completed attempt (if any) taken out of the in-flight set *)
 Lemma stepok_of_grow s e s1 s' :
-  Grow s1 s' -> fut s1 = fut s -> started s1 = started s -> StepOK s e s'.
+  Grow s1 s' -> fut s1 = fut s -> started s1 = started s ->
+  (forall b, In b (ifl s1) <-> (In b (ifl s) /\ ~ completes e b)) -> StepOK s e s'.
 Proof.
-  intros [G1 [G2 G3]] F S. rewrite F, S in *. split; [|split]; auto.
-  intros w Hw. destruct (G1 w Hw) as [H|H]; auto.
+  intros [G1 [G2 [G3 [G4 G5]]]] F S I. rewrite F, S in *. split; [|split; [|split; [|split]]]; auto.
+  - intros w Hw. destruct (G1 w Hw) as [H|H]; auto.
+  - intros b Hb NC. apply G4. apply I. auto.
+  - intros b Hb. destruct (G5 b Hb) as [H|H]; auto. left. apply I. exact H.
 Qed.
 
-Lemma stepok_same s e s' : fut s' = fut s -> started s' = started s -> StepOK s e s'.
-Proof. intros F S. apply (stepok_of_grow s e s s'); auto. apply grow_same; auto. Qed.
+Lemma stepok_same s e s' :
+  fut s' = fut s -> started s' = started s ->
+  (forall b, In b (ifl s') <-> (In b (ifl s) /\ ~ completes e b)) -> StepOK s e s'.
+Proof.
+  intros F S I. split; [|split; [|split; [|split]]].
+  - intros w Hw. left. congruence.
+  - intros H. left. congruence.
+  - exists []. rewrite app_nil_r. split; auto. split; intros b [].
+  - intros b Hb NC. apply I. auto.
+  - intros b Hb. left. apply I. exact Hb.
+Qed.
+
+Lemma nocomp_noop s e :
+  match e with EDone a _ => ~ In a (ifl s) | _ => True end ->
+  forall b, In b (ifl s) <-> (In b (ifl s) /\ ~ completes e b).
+Proof.
+  intros H b. split; [|intros [H1 _]; auto]. intros Hb. split; auto.
+  destruct e; simpl; auto. intros ->. auto.
+Qed.
 
 Lemma core_of_done p s : Core0 p s -> is_done s = true -> Core p s.
 Proof. intros C D. split; auto. intros; congruence. Qed.
@@ -75,14 +113,23 @@ Proof.
     + intros; reflexivity.
 Qed.
 
+Lemma take_none a : forall l, take_infl a l = None -> ~ In a (map fst l).
+Proof.
+  intros l T H. destruct (take_some a l H) as [r [rest T']]. congruence.
+Qed.
+
 Lemma step_inv s e : Inv s -> Inv (step' s e) /\ StepOK s e (step' s e).
 Proof.
   intros [[C CL] LV]. destruct e as [a ok| |]; unfold Proofs.step'.
   - (* a pending connect future completes *)
     destruct (take_infl a (infl s)) as [[r rest]|] eqn:T.
-    2:{ split; [split; [split|]; auto|apply stepok_same; auto]. }
+    2:{ split; [split; [split|]; auto|apply stepok_same; auto].
+        apply nocomp_noop. apply take_none. exact T. }
     destruct (core_take addrs a r rest (qf s) s C T) as [C1 [IA [NA [IA0 [HX HI]]]]].
+    pose proof (take_ifl a _ _ _ T (c_ifl_nd _ _ _ C)) as TI.
     cbv zeta. set (s1 := dec (set_infl rest s)) in *.
+    assert (TI1 : forall b, In b (ifl s1) <-> (In b (ifl s) /\ ~ completes (EDone a ok) b)).
+    { intros b. unfold s1, ifl at 1. simpl. rewrite TI. simpl. split; intros [H1 H2]; split; auto. }
     assert (Q1 : qf s1 = qf s) by reflexivity.
     destruct ok.
     + (* success *)
@@ -94,14 +141,17 @@ Proof.
         unfold Proofs5.qf. rewrite tmo_var_succeed. fold (qf s1). rewrite Q1.
         apply core_weaken with (p := r ++ qf s); auto; [apply qf_le|apply succeed_done].
       * destruct (is_done s1) eqn:D1.
-        -- apply stepok_same; unfold succeed; rewrite is_done_clear, D1, clear_timeouts_eq; reflexivity.
-        -- rewrite (succeed_pending_eq _ _ D1), clear_timeouts_eq. split; [|split]; simpl.
+        -- apply stepok_same; unfold succeed; rewrite is_done_clear, D1, clear_timeouts_eq; try reflexivity.
+           exact TI1.
+        -- rewrite (succeed_pending_eq _ _ D1), clear_timeouts_eq. split; [|split; [|split; [|split]]]; simpl.
            ++ intros w Hw. inversion Hw; subst. right. left. auto.
            ++ intros; discriminate.
            ++ exists []. rewrite app_nil_r. split; auto. split; intros b [].
+           ++ intros b Hb NC. apply TI1. auto.
+           ++ intros b Hb. left. apply TI1. exact Hb.
     + (* failure *)
       destruct (is_done s1) eqn:D1.
-      * split; [|apply stepok_same; reflexivity].
+      * split; [|apply stepok_same; try reflexivity; exact TI1].
         split; [|intros H; congruence].
         rewrite Q1. apply core_of_done; auto. apply core0_weaken with (p := r ++ qf s); auto. apply qf_le.
       * rewrite <- Q1 in C1.
@@ -109,16 +159,16 @@ Proof.
         split; auto. apply (stepok_of_grow s _ s1); auto.
   - (* the fallback timer fires *)
     destruct (tmo_armed s) eqn:A.
-    2:{ split; [split; [split|]; auto|apply stepok_same; auto]. }
+    2:{ split; [split; [split|]; auto|apply stepok_same; auto; apply nocomp_noop; exact I]. }
     rewrite OT_OT0.
     assert (Q : qf s = secondary addrs).
     { unfold Proofs5.qf. rewrite (c_t1 _ _ _ C A). reflexivity. }
     assert (CS : Core (secondary addrs) s) by (rewrite <- Q; split; auto).
     destruct (OT0_inv addrs Hn s CS) as [I2 [G2 _]].
-    split; auto. apply (stepok_of_grow s _ s); auto.
+    split; auto. apply (stepok_of_grow s _ s); auto. apply nocomp_noop. exact I.
   - (* the connect timeout fires *)
     destruct (ct_armed s) eqn:A.
-    2:{ split; [split; [split|]; auto|apply stepok_same; auto]. }
+    2:{ split; [split; [split|]; auto|apply stepok_same; auto; apply nocomp_noop; exact I]. }
     split.
     + split.
       * assert (CC : Core (qf s) s) by (split; auto).
@@ -130,11 +180,13 @@ Proof.
         destruct (is_done s) eqn:D; unfold is_done in *; simpl in H; congruence.
     + unfold on_connect_timeout. change (is_done (set_ct (ct_var s) false s)) with (is_done s).
       destruct (is_done s) eqn:D.
-      * apply stepok_same; reflexivity.
-      * split; [|split]; simpl.
+      * apply stepok_same; try reflexivity. exact (nocomp_noop s EConnectTimer I).
+      * split; [|split; [|split; [|split]]]; simpl.
         -- intros; discriminate.
         -- intros _. right. auto.
         -- exists []. rewrite app_nil_r. split; auto. split; intros b [].
+        -- intros b Hb _. exact Hb.
+        -- intros b Hb. left. split; auto.
 Qed.
 
 (* ---- direct facts about one event (no invariant needed) ---- *)
